@@ -243,9 +243,17 @@ Proof.
   apply Forall_app. split; [exact Hs | constructor; [apply new_stream_ok | constructor]].
 Qed.
 
+Lemma drain_inv fuel : forall quiet s, Inv s -> Inv (drain fuel quiet s).
+Proof.
+  induction fuel as [|f IH]; intros quiet s HI; cbn [drain]; [exact HI|].
+  destruct (scheduled s); [|exact HI].
+  pose proof (run_iter_inv s HI) as H1.
+  destruct (Nat.eqb _ _); [destruct (Nat.leb _ _); [exact H1 | apply IH, H1] | apply IH, H1].
+Qed.
+
 Lemma step_inv s o : Inv s -> Inv (step s o).
 Proof.
-  intros HI. destruct o as [|[|t] inc|v|v|i|i|i a]; cbn [step].
+  intros HI. destruct o as [|[|t] inc|v|v|i|i|i a|]; cbn [step]; [| | | | | | | |apply drain_inv, HI].
   - destruct (scheduled s); [apply run_iter_inv, HI | exact HI].
   - apply fire_inv, conn_window_updated_inv. destruct HI; constructor; assumption.
   - destruct (find_stream (S t) (streams s)); [|apply fire_inv, HI].
@@ -481,9 +489,17 @@ Proof.
   - apply prod_run_parked, upd_parked; [kb|]. destruct (0 <? pre); [apply write_to_parked, H0 | exact H0].
 Qed.
 
+Lemma drain_parked fuel : forall quiet s, Parked s -> Parked (drain fuel quiet s).
+Proof.
+  induction fuel as [|f IH]; intros quiet s HP; cbn [drain]; [exact HP|].
+  destruct (scheduled s) eqn:E; [|exact HP].
+  pose proof (run_iter_parked s) as H1.
+  destruct (Nat.eqb _ _); [destruct (Nat.leb _ _); [exact H1 | apply IH, H1] | apply IH, H1].
+Qed.
+
 Lemma step_parked s o : Parked s -> Parked (step s o).
 Proof.
-  intros HP. destruct o as [|[|t] inc|v|v|i|i|i a]; cbn [step].
+  intros HP. destruct o as [|[|t] inc|v|v|i|i|i a|]; cbn [step]; [| | | | | | | |apply drain_parked, HP].
   - destruct (scheduled s) eqn:E; [apply run_iter_parked | exact HP].
   - apply fire_parked.
   - destruct (find_stream (S t) (streams s)); apply fire_parked.
